@@ -297,6 +297,8 @@ def run(run):
             facts.drop(F)
             cfgmod.clear_cache()
     nfamily.report(run, run.tier, 'C12.b')
+    from gen import static_units
+    static_units.report(run, 'C12.b', static_units.capacity_unit('C12.b'))
     run.floor('C12.a', 40)
     run.floor('C12.b', 60)
     run.floor('C12.c', 20)
